@@ -20,7 +20,9 @@ import initbuild as ib
 ID = "C08"
 RULE = ("struct: class bodies = items {function, classmethod, staticmethod, property(getter/setter/deleter), "
         "cached_property, wrapped function / foreign descriptor, plain attribute, user __getattr__/__setattr__/"
-        "__attrs_init_subclass__} x closure use {__class__, super(), none} x cell sharing {compiler cell shared by all "
+        "__attrs_init_subclass__} x member naming {public key, name-mangled private key (`__q` in class C = `_C__q`), dunder-like "
+        "key; function __name__ = key, an alias (assignment style `total = cached_property(_impl)`), `<lambda>`, or the name of "
+        "another member / field} x closure use {__class__, super(), none} x cell sharing {compiler cell shared by all "
         "methods, private cell, the old class captured under another name, empty cell, cells holding OTHER objects of many kinds: "
         "another class, a class equal to every class, an always-equal object, unittest.mock.ANY, a never-equal object, objects "
         "whose __eq__ raises TypeError / ValueError / a BaseException-only exception, a plain value -- each must be left holding "
@@ -61,6 +63,8 @@ ASSUMPTIONS = [
     "may hit K3), for a body-level __slots__ and for body keys shadowing inherited fields; multiple inheritance is exercised in "
     "the struct and isub parts only (initbuild's chains, used by the meta part, are single-inheritance); __set_name__ of foreign "
     "descriptors being re-run for the new class is observed as a runtime fact; ABCMeta abstract-method bookkeeping is not probed",
+    "struct: member naming (mangled / dunder-like keys, function __name__ different from the key) is harness-only variation: the "
+    "model is a function of the body's keys and item kinds and never sees a function's __name__",
     "struct: what an 'other' closure cell holds is harness-only variation: the model (and C08_cells_exact) says every cell not "
     "holding the original class is untouched whatever it holds, so the object kinds need no counterpart in the Lean CellVal",
     "struct: the earlier classes of a case's history are context only (their own defects are reported when they are the class "
@@ -232,6 +236,30 @@ def gen_struct(rng):
                                 "f": _fnspec(rng, natural, cell_pool, "opaque", 0.7)}])
         else:
             items.append([key, {"k": kind, "f": _fnspec(rng, natural, cell_pool, kind)}])
+    # unusual member names (harness-only: the model sees body keys, never function names): name-mangled private
+    # and dunder-like keys; functions whose __name__ is not the key they are bound to (alias / assignment style,
+    # lambda, or the name of ANOTHER member or field)
+    renamed = {}
+    for j, (key, spec) in enumerate(items):
+        if spec["k"] == "plain" or key in inherited:
+            continue
+        r = rng.random()
+        if r < 0.15:
+            renamed[key] = f"_{hs['name']}__q{j}"
+        elif r < 0.25:
+            renamed[key] = f"__d{j}__"
+    items = [[renamed.get(k, k), sp] for k, sp in items]
+    taken = [k for k, _ in items] + own + inherited
+    for key, spec in items:
+        if spec["k"] == "plain":
+            continue
+        r = rng.random()
+        if r < 0.25:
+            spec["fname"] = "alias"
+        elif r < 0.31:
+            spec["fname"] = "lambda"
+        elif r < 0.40 and any(t != key for t in taken):
+            spec["fname"] = "collide:" + rng.choice([t for t in taken if t != key])
     user_getattr = rng.random() < 0.25
     if user_getattr:
         items.append(["__getattr__", {"k": "fn", "f": _fnspec(rng, natural, cell_pool, "getattr", 0.5)}])
@@ -609,6 +637,11 @@ def shrink(case):
             h2 = copy.deepcopy(hs)
             h2["cells"] = [c for c in hs["cells"] if c[0] in used_cells]
             cands.append(h2)
+        for i, (_k, sp) in enumerate(hs["items"]):
+            if sp.get("fname"):
+                h2 = copy.deepcopy(hs)
+                h2["items"][i][1].pop("fname")
+                cands.append(h2)
         for cid, kind in (hs.get("cell_objs") or {}).items():
             if kind != "class":
                 h2 = copy.deepcopy(hs)
